@@ -57,6 +57,7 @@ Definition pgk_Resources : pg_key := [82;101;115;111;117;114;99;101;115].
 Definition pgk_Rotate : pg_key := [82;111;116;97;116;101].
 Definition pgk_Annots : pg_key := [65;110;110;111;116;115].
 Definition pgk_Mk : pg_key := [77;107].
+Definition pgk_Catalog : pg_key := [67;97;116;97;108;111;103].
 
 Fixpoint pg_key_cmp (a b : pg_key) : comparison :=
   match a, b with
@@ -809,8 +810,21 @@ Definition pg_insert_local (p : pg_doc) (np : pg_val) (pos : Z) : pg_doc * optio
       end
     end.
 
+(* the test at the top of Pages::insert (repair 53c36690): a null is let through, anything else must be a dictionary
+   that is neither a /Pages node (by /Type or by having /Kids) nor the catalog.  An indirect handle is looked at in
+   the document that owns it. *)
+Definition pg_insertable (w : pg_world) (d : bool) (h : pg_href) : bool :=
+  let '(s, v) := match pg_norm w h with
+                 | PhDirect v => (pd_store (pg_get w d), v)
+                 | PhObj b i => (pd_store (pg_get w b), PvRef i)
+                 end in
+  pg_is_null s v ||
+  (pg_is_dict s v && negb (pg_is_dict_of_type s v pgk_Pages) && negb (pg_is_dict_of_type s v pgk_Catalog) &&
+   negb (pg_has_key s v pgk_Kids)).
+
 (* Pages::insert *)
 Definition pg_insert (w : pg_world) (d : bool) (h : pg_href) (pos : Z) : pg_world * option pg_err :=
+  if negb (pg_insertable w d h) then (w, Some PeRt) else
   let '(p, e) := pg_flatten (pg_get w d) in
   let w := pg_put w d p in
   match e with
